@@ -41,6 +41,7 @@ def t1_t2(repo, res, roots, pid_rule_prefix="", lazy=LAZY_INIT, ctor_ok=CTOR_OK,
         res.require(r in g.nodes, f"anchor function vanished: {r}")
     res.require(not g.array_layer_violations, f"numerical layer imports classes: {g.array_layer_violations}")
     stop = {f for f in g.nodes if f.endswith(".__init__")} | set(lazy)
+    g.edges = g.edges_for_preexisting()      # setters invoked on objects created in the calling function act on those new objects
     seen, parent = g.reachable(roots, stop=stop)
     res.analysed["reachable_functions"] = len(seen)
     res.analysed["call_edges"] = sum(len(v) for v in g.edges.values())
